@@ -53,7 +53,12 @@ func funcExecComponent(g *G, n int, opts map[string]string) *Out {
 		var exe *core.Execution
 		var err error
 		outcome := guarded(func() {
-			ctx, cancel := context.WithTimeout(context.Background(), 25*time.Millisecond)
+			// a deadline only for an endless script (one execution: deterministic)
+			ctx, cancel := context.WithTimeout(context.Background(), 20*time.Second)
+			if a.hasLoop() {
+				cancel()
+				ctx, cancel = context.WithTimeout(context.Background(), 60*time.Millisecond)
+			}
 			defer cancel()
 			exe, err = action.Exec(ctx, bs, nil)
 		})
